@@ -99,15 +99,23 @@ Leading(M, k) == Sub(M, [i \in 1..k |-> i], [i \in 1..k |-> i])
 (*   T   r x c exact target at scale 2^(2S)                                 *)
 (*   mag norm-wise magnitude k*max|X|*max|Y| (for the f32 slack)            *)
 (***************************************************************************)
-ProdNearQQ(X, Yt, T, w, mag) ==
+(* Row sums of |.| and the rounding slack are computed once and handed down as
+   arguments (TLC would otherwise recompute them for every pair (i, j)). *)
+RowL1(M) == [i \in 1..Len(M) |-> L1(M[i])]
+
+ProdNearQQOn(X, Yt, T, lx, ly, k, sl) ==
     \A i \in 1..Len(X) : \A j \in 1..Len(Yt) :
-        Near(Dot(X[i], Yt[j]), T[i][j], QQTol(X[i], Yt[j]) + Slack(w, Len(X[i]), mag))
+        Near(Dot(X[i], Yt[j]), T[i][j], HalfUp(lx[i] + ly[j] + k) + sl)        \* = QQTol(X[i], Yt[j]) + sl
+ProdNearQQ(X, Yt, T, w, mag) ==
+    ProdNearQQOn(X, Yt, T, RowL1(X), RowL1(Yt), NCols(X), Slack(w, NCols(X), mag))
 
 (*   A   r x k exact integers        Xt  c x k quantised at 2^S, transposed *)
 (*   T   r x c exact target at scale 2^S                                    *)
-ProdNearIQ(A, Xt, T, w, mag) ==
+ProdNearIQOn(A, Xt, T, la, sl) ==
     \A i \in 1..Len(A) : \A j \in 1..Len(Xt) :
-        Near(Dot(A[i], Xt[j]), T[i][j], IQTol(A[i]) + Slack(w, Len(A[i]), mag))
+        Near(Dot(A[i], Xt[j]), T[i][j], HalfUp(la[i]) + sl)                    \* = IQTol(A[i]) + sl
+ProdNearIQ(A, Xt, T, w, mag) ==
+    ProdNearIQOn(A, Xt, T, RowL1(A), Slack(w, NCols(A), mag))
 
 (* two quantised matrices that must be the same real matrix *)
 SameQ(X, Y) == /\ Len(X) = Len(Y)
